@@ -199,7 +199,7 @@ Proof.
   unfold new_root_ok in NR. apply andb_true_iff in NR as [V _].
   pose proof (main_root_within_lemma _ _ _ V) as NB.
   destruct f as [p|p|p|a d|p|p|k p]; try discriminate; cbn [targets forallb]; rewrite ?andb_true_r.
-  - apply andb_true_iff in B as [B _]. apply in_zone_root. apply below_under. exact B.
+  - apply andb_true_iff in B as [B _]. apply in_zone_root. exact B.
   - apply andb_true_iff in B as [B1 B2]. apply fpath_eqb_eq in B1, B2. subst a d. apply andb_true_iff. split.
     + apply in_zone_stg. exact SU.
     + apply in_zone_root. apply below_under. exact NB.
